@@ -188,7 +188,7 @@ def gen_dist_program(rng, name):
     gv = []
     seen = set()
     while len(gv) < 2:
-        g = (rng.range(1, 4), rng.range(0, 2))
+        g = (rng.range(1, 4), rng.range(1, 2) if not gv else rng.range(0, 2))     # the first shape has at least two columns
         if g in seen:
             continue
         seen.add(g)
